@@ -178,7 +178,7 @@ def check_c01(tier):
 
 
 def _mc_sxg_cfgs(tier):
-    return [("small", "SPECIFICATION Spec\nCONSTANTS\n MaxMoves = %d\nINVARIANTS Authentic MsgInjective\nVIEW View\nCHECK_DEADLOCK FALSE\n" % (2 if tier == "quick" else 3))]
+    return [("attacker", "SPECIFICATION Spec\nCONSTANTS\n MaxMoves = %d\nINVARIANTS Authentic NoForgery MsgInjectiveOnce\nVIEW View\nCHECK_DEADLOCK FALSE\n" % (3 if tier == "quick" else 4))]
 
 
 def check_c09(tier):
